@@ -85,13 +85,6 @@ Definition coll_lt (a b : feat) : bool :=
   let sb := comparator_start (floc b) in
   (sa <? sb) || ((sa =? sb) && (- llen (floc a) <? - llen (floc b))).
 
-(* key of the wrapped-region branch: (start [+ L if start < L/2], -len, product) *)
-Definition wrapped_key_lt (rl : Z) (a b : feat) : bool :=
-  let k (f : feat) := if 2 * fstart f <? rl then fstart f + rl else fstart f in
-  (k a <? k b) ||
-  ((k a =? k b) && ((- llen (floc a) <? - llen (floc b)) ||
-                    ((- llen (floc a) =? - llen (floc b)) && (fprod a <? fprod b)))).
-
 (* pre-sort of the branch for regions that do not cross the origin:
    sorted(clusters, key=(product, core_start, core_end)) - identical coordinates are not separated by
    CDSCollection.__lt__, the stable second sort keeps this order for them *)
@@ -101,6 +94,14 @@ Definition pre_key_lt (a b : feat) : bool :=
   (fprod a <? fprod b) ||
   ((fprod a =? fprod b) && ((fst (core_se a) <? fst (core_se b)) ||
                             ((fst (core_se a) =? fst (core_se b)) && (snd (core_se a) <? snd (core_se b))))).
+
+(* key of the wrapped-region branch: (start [+ L if start < L/2], -len, product, core_start, core_end)
+   (the two core components: repair of finding C17-K7 unique_crossing_same_product_set_order) *)
+Definition wrapped_key_lt (rl : Z) (a b : feat) : bool :=
+  let k (f : feat) := if 2 * fstart f <? rl then fstart f + rl else fstart f in
+  (k a <? k b) ||
+  ((k a =? k b) && ((- llen (floc a) <? - llen (floc b)) ||
+                    ((- llen (floc a) =? - llen (floc b)) && pre_key_lt a b))).
 
 (* protos: the set of protoclusters in its iteration order *)
 Definition unique_protoclusters (rloc : loc) (protos : list feat) : list feat :=
